@@ -1,12 +1,543 @@
-//! C14 — not built yet (stub; see DESIGN.md §5).
-use crate::ctx::Tier;
-use serde_json::Value;
+//! C14 (sequential part) — the registry behaves as a JSON tree addressed by
+//! RFC 6901 pointers. The real `repe::Registry` is driven (a) by every
+//! operation x every pointer of a large pointer universe from three start
+//! trees and (b) by every history of a small scope (tree + BFS engines), next
+//! to a reference model "plain JSON document + set of callables + call log"
+//! with an independent RFC 6901 tokenizer. Every request is also issued
+//! through `Router::with_registry` under three prefixes and all body formats.
+//! The concurrent part (linearizability) is `lm/src/c14.rs`.
 
-pub fn run(_tier: Tier) -> ! {
-    eprintln!("MACHINERY-ERROR property=C14 check not built yet");
-    std::process::exit(2)
+#[path = "c14_check.rs"]
+mod check;
+#[path = "c14_oracle.rs"]
+mod oracle;
+
+use crate::ctx::{Ctx, Samples, Tier};
+use crate::explore::{self, Bad, Outcome, Stats, System, key_of};
+use crate::par;
+use check::*;
+use oracle::{self as o, Op};
+use serde_json::{Value, json};
+use std::collections::BTreeSet;
+use std::panic::{AssertUnwindSafe, catch_unwind};
+use std::time::{Duration, Instant};
+
+const TOKENS: [&str; 9] = ["a", "b", "", "0", "1", "~0", "~1", "a~1b", "~01"];
+const MALFORMED: [&str; 6] = ["a", "a/b", "/~", "/a~", "/~2", "/a/~x"];
+
+fn values() -> Vec<Value> {
+    vec![json!(1), json!("s"), json!({"k": 2}), json!([10, 20]), Value::Null]
 }
 
-pub fn replay(_case: &Value) -> Result<(), String> {
-    Err("no replay for C14 yet".into())
+/// Pointers the small-scope histories are observed at (also part of the big universe).
+fn scope_observed() -> Vec<String> {
+    ["", "/", "/a", "/a/0", "/a~10", "/a/1", "/a/k", "/k", "/0", "/a/0/k", "/a/0/0", "/a~10/k", "/a~10/0", "/a/", "/a~1", "/a~0", "a", "/a~", "/~2", "/a/0~"]
+        .iter()
+        .map(|s| s.to_string())
+        .collect()
+}
+
+fn base_universe() -> Vec<String> {
+    let mut v: Vec<String> = vec![String::new()];
+    for a in TOKENS {
+        v.push(format!("/{a}"));
+        for b in TOKENS {
+            v.push(format!("/{a}/{b}"));
+            for c in TOKENS {
+                v.push(format!("/{a}/{b}/{c}"));
+            }
+        }
+    }
+    v.extend(MALFORMED.iter().map(|s| s.to_string()));
+    v
+}
+
+/// Every key name of length <= 3 over {a, ~, /}, spelled by the oracle's escape.
+fn extra_token_pointers() -> Vec<String> {
+    let alpha = ['a', '~', '/'];
+    let mut names: Vec<String> = Vec::new();
+    for x in alpha {
+        names.push(x.to_string());
+        for y in alpha {
+            names.push(format!("{x}{y}"));
+            for z in alpha {
+                names.push(format!("{x}{y}{z}"));
+            }
+        }
+    }
+    names.iter().map(|n| format!("/{}", o::escape(n))).collect()
+}
+
+fn full_universe() -> Vec<String> {
+    let mut seen = BTreeSet::new();
+    let mut out = Vec::new();
+    for p in base_universe().into_iter().chain(extra_token_pointers()).chain(scope_observed()) {
+        if seen.insert(p.clone()) {
+            out.push(p);
+        }
+    }
+    out
+}
+
+const SEED_NAMES: [&str; 3] = ["empty", "tree", "functions"];
+
+fn seed_ops(name: &str) -> Option<Vec<Op>> {
+    Some(match name {
+        "empty" => vec![],
+        "tree" => vec![
+            Op::SetRoot(json!({
+                "a": {"b": {"0": 1, "": "e"}, "": {"a": 5}, "0": [10, 20]},
+                "b": [{"a": 1}, [10, 20], "x"],
+                "0": "zero"
+            })),
+            Op::RegValue("/a/~0".into(), json!("t")),
+            Op::RegValue("/a/~1/~01".into(), json!(7)),
+            Op::RegValue("//".into(), json!({"": 3})),
+            Op::RegValue("/1/1/1".into(), Value::Null),
+            Op::RegValue("/~0".into(), json!({"a": 1, "~": [1]})),
+            Op::RegValue("/~1".into(), json!([0, {"b": true}])),
+            Op::RegValue("/a~1b/a~1b".into(), json!({"~1": 2})),
+            Op::RegValue("~01/0".into(), json!(0)),
+            Op::MergeAt("/a/b".into(), json!({"1": [10, 20]})),
+        ],
+        "functions" => vec![
+            Op::MergeRoot(json!({"a": {"a": 1, "": 2}, "b": {"": {"b": 1}}, "0": [10, 20], "1": {"0": {"1": 1}}})),
+            Op::RegFn("/a".into()),
+            Op::RegFn("/b/".into()),
+            Op::RegFn("/~1".into()),
+            Op::RegFn("/a~1b/0".into()),
+            Op::RegFn("/1/~01/b".into()),
+            Op::RegFn("~0".into()),
+            Op::RegFn("/b/0/1".into()),
+            Op::RegValue("/~0".into(), json!(5)),
+        ],
+        _ => return None,
+    })
+}
+
+fn single_ops(p: &str) -> Vec<Op> {
+    let p = p.to_string();
+    let mut v = vec![Op::Read(p.clone()), Op::ReadValue(p.clone()), Op::RegFn(p.clone())];
+    for x in values() {
+        v.push(Op::Send(p.clone(), x.clone()));
+        v.push(Op::RegValue(p.clone(), x));
+    }
+    v.push(Op::MergeAt(p.clone(), json!({"k": 2})));
+    v.push(Op::MergeAt(p, json!({"a": "m", "": 0})));
+    v
+}
+
+fn guarded(cfg: &Cfg, seed: &[Op], ops: &[Op], check_from: usize, acc: &mut Acc) -> Option<Final> {
+    guarded_with(cfg, seed, ops, check_from, None, acc)
+}
+
+fn guarded_with(cfg: &Cfg, seed: &[Op], ops: &[Op], check_from: usize, before0: Option<&[LiveRes]>, acc: &mut Acc) -> Option<Final> {
+    match catch_unwind(AssertUnwindSafe(|| cfg.run_case_with(seed, ops, check_from, before0, acc))) {
+        Ok(f) => f,
+        Err(e) => {
+            let msg = e.downcast_ref::<String>().cloned().or_else(|| e.downcast_ref::<&str>().map(|s| s.to_string())).unwrap_or_default();
+            acc.bad.push(Bad { key: "C14:panic".into(), what: format!("panic while executing the case: {msg}"), step: ops.len().saturating_sub(1) });
+            None
+        }
+    }
+}
+
+// ---------------------------------------------------------------- small-scope histories
+
+const SCOPE_POINTERS: [&str; 4] = ["", "/a", "/a/0", "/a~10"];
+
+fn scope_letters() -> Vec<Op> {
+    let vals = [json!({"k": 2}), json!([10, 20]), json!(1)];
+    let mut l = Vec::new();
+    for p in SCOPE_POINTERS {
+        l.push(Op::Read(p.into()));
+    }
+    for p in SCOPE_POINTERS {
+        for v in &vals {
+            l.push(Op::Send(p.into(), v.clone()));
+        }
+    }
+    for p in SCOPE_POINTERS {
+        for v in &vals {
+            l.push(Op::RegValue(p.into(), v.clone()));
+        }
+    }
+    for p in SCOPE_POINTERS {
+        l.push(Op::RegFn(p.into()));
+    }
+    for p in SCOPE_POINTERS {
+        l.push(Op::MergeAt(p.into(), json!({"0": "m"})));
+    }
+    l
+}
+
+struct RegSys {
+    cfg: Cfg,
+    letters: Vec<Op>,
+}
+
+impl RegSys {
+    fn ops(&self, h: &[u8]) -> Vec<Op> {
+        h.iter().map(|l| self.letters[*l as usize].clone()).collect()
+    }
+}
+
+impl System for RegSys {
+    fn letters(&self) -> usize {
+        self.letters.len()
+    }
+    fn letter_name(&self, l: u8) -> String {
+        self.letters[l as usize].short()
+    }
+    fn run(&self, history: &[u8], check_from: usize) -> Outcome {
+        let ops = self.ops(history);
+        let mut acc = Acc::new();
+        let fin = guarded(&self.cfg, &[], &ops, check_from, &mut acc);
+        self.cfg.ctr.flush(&acc.ctr);
+        let key = fin.map(|f| {
+            let funcs: Vec<&String> = f.model.funcs.iter().collect();
+            key_of(&(o::canon_json(&f.model.doc), funcs, f.model.calls.len(), &f.impl_root, &f.impl_reads))
+        });
+        Outcome { key, bad: acc.bad, flags: 0 }
+    }
+}
+
+/// Oracle on the last step only: every shorter history is enumerated on its own.
+struct LastOnly<'a>(&'a RegSys);
+impl System for LastOnly<'_> {
+    fn letters(&self) -> usize {
+        self.0.letters()
+    }
+    fn letter_name(&self, l: u8) -> String {
+        self.0.letter_name(l)
+    }
+    fn run(&self, history: &[u8], _check_from: usize) -> Outcome {
+        self.0.run(history, history.len().saturating_sub(1))
+    }
+}
+
+fn record(ctx: &Ctx, sys: &RegSys, st: &Stats) {
+    for (hist, bad) in &st.first_bad {
+        let ops = sys.ops(hist);
+        ctx.violation(
+            bad.key.clone(),
+            format!("{} [history: {}]", bad.what, ops.iter().map(|o| o.short()).collect::<Vec<_>>().join("; ")),
+            json!({"mode": "history", "seed": "empty", "ops": ops.iter().map(|o| o.to_json()).collect::<Vec<_>>(), "failed_after_step": bad.step}),
+        );
+    }
+}
+
+// ---------------------------------------------------------------- clauses (4) and (6)
+
+fn check_tokens_and_json_pointer(ctx: &Ctx, universe: &[String]) -> (u64, u64, u64) {
+    let mut tokens_checked = 0u64;
+    // oracle-level round trip: escape . unescape = id on well-formed spellings,
+    // unescape . escape = id on key names
+    let mut spellings: BTreeSet<String> = TOKENS.iter().map(|s| s.to_string()).collect();
+    for p in extra_token_pointers() {
+        spellings.insert(p[1..].to_string());
+    }
+    for s in &spellings {
+        tokens_checked += 1;
+        match o::unescape(s) {
+            Some(name) => {
+                if &o::escape(&name) != s || o::unescape(&o::escape(&name)).as_deref() != Some(&name) {
+                    ctx.machinery(format!("oracle escape/unescape do not round-trip on {s:?}"));
+                }
+            }
+            None => ctx.machinery(format!("oracle rejects the well-formed token spelling {s:?}")),
+        }
+    }
+    // clause (6): repe::parse_json_pointer / eval_json_pointer against the oracle
+    let docs: Vec<Value> = {
+        let mut d = Vec::new();
+        for name in SEED_NAMES {
+            let mut m = oracle::Model::new();
+            for op in seed_ops(name).unwrap() {
+                m.apply(&op);
+            }
+            d.push(m.doc);
+        }
+        d.push(json!([{"a": [1, 2]}, [10, 20], "x"]));
+        d.push(json!(5));
+        d
+    };
+    let (mut compared, mut malformed_seen) = (0u64, 0u64);
+    for p in universe {
+        let wellformed = p.is_empty() || p.starts_with('/');
+        match (o::rfc_tokens(p), wellformed) {
+            (Some(want), _) => {
+                let got = match catch_unwind(|| repe::parse_json_pointer(p)) {
+                    Ok(g) => g,
+                    Err(_) => {
+                        ctx.violation("C14:json_pointer:panic", format!("parse_json_pointer({p:?}) panicked"), json!({"mode": "json_pointer", "pointer": p}));
+                        continue;
+                    }
+                };
+                compared += 1;
+                if got != want {
+                    ctx.violation(
+                        "C14:json_pointer:parse",
+                        format!("parse_json_pointer({p:?}) = {got:?}, RFC 6901 tokens are {want:?}"),
+                        json!({"mode": "json_pointer", "pointer": p}),
+                    );
+                }
+                for d in &docs {
+                    compared += 1;
+                    let got = repe::eval_json_pointer(d, p).cloned();
+                    let want_v = o::get(d, &want).cloned();
+                    if got != want_v {
+                        ctx.violation(
+                            "C14:json_pointer:eval",
+                            format!("eval_json_pointer(doc, {p:?}) = {got:?}, RFC 6901 evaluation gives {want_v:?} (doc {})", o::canon_json(d)),
+                            json!({"mode": "json_pointer", "pointer": p, "doc": d}),
+                        );
+                    }
+                }
+            }
+            (None, _) => {
+                // malformed escape or missing leading '/': behaviour not stated; only "does not crash" is looked at
+                malformed_seen += 1;
+                if catch_unwind(|| repe::parse_json_pointer(p)).is_err() {
+                    ctx.note(format!("parse_json_pointer panics on the malformed pointer {p:?} (not stated by C14)"));
+                }
+            }
+        }
+    }
+    (tokens_checked, compared, malformed_seen)
+}
+
+fn replay_json_pointer(case: &Value) -> Result<(), String> {
+    let p = case["pointer"].as_str().ok_or("pointer")?;
+    let want = o::rfc_tokens(p).ok_or("malformed pointer: nothing stated")?;
+    let got = repe::parse_json_pointer(p);
+    if got != want {
+        return Err(format!("parse_json_pointer({p:?}) = {got:?}, RFC 6901 tokens are {want:?}"));
+    }
+    if let Some(d) = case.get("doc") {
+        let got = repe::eval_json_pointer(d, p).cloned();
+        let want_v = o::get(d, &want).cloned();
+        if got != want_v {
+            return Err(format!("eval_json_pointer(doc, {p:?}) = {got:?}, RFC 6901 evaluation gives {want_v:?}"));
+        }
+    }
+    Ok(())
+}
+
+// ---------------------------------------------------------------- driver
+
+pub fn run(tier: Tier) -> ! {
+    let ctx = Ctx::new("C14", tier);
+    let t0 = Instant::now();
+    std::panic::set_hook(Box::new(|_| {}));
+    let samples = Samples::new(6);
+    let universe = full_universe();
+
+    // harness sanity (machinery, not verdicts)
+    for p in &universe {
+        if let Some(t) = o::reg_tokens(p) {
+            if t.iter().any(|x| o::lenient_index(x)) {
+                ctx.machinery(format!("universe pointer {p:?} contains a lenient array index spelling"));
+            }
+        }
+    }
+    for v in values() {
+        let rt = beve::to_vec(&v).ok().filter(|b| !b.is_empty()).and_then(|b| beve::from_slice::<Value>(&b).ok());
+        if rt.as_ref() != Some(&v) {
+            ctx.machinery(format!("BEVE does not round-trip the harness value {v} (got {rt:?})"));
+        }
+    }
+
+    let (tokens_checked, jp_compared, jp_malformed) = check_tokens_and_json_pointer(&ctx, &universe);
+
+    // ---- (a) single-step sweep: every operation x every pointer x three start trees
+    let full = Cfg::new(&universe, true, true);
+    let seeds: Vec<Vec<Op>> = SEED_NAMES.iter().map(|n| seed_ops(n).unwrap()).collect();
+    // the seed histories themselves are checked step by step
+    for (si, seed) in seeds.iter().enumerate() {
+        let mut acc = Acc::new();
+        guarded(&full, &[], seed, 0, &mut acc);
+        full.ctr.flush(&acc.ctr);
+        for b in acc.bad {
+            ctx.violation(b.key, format!("{} [building the start tree {:?}]", b.what, SEED_NAMES[si]), json!({"mode": "history", "seed": "empty", "ops": seed.iter().map(|o| o.to_json()).collect::<Vec<_>>()}));
+        }
+    }
+    let befores: Vec<Vec<LiveRes>> = seeds.iter().map(|s| full.observe_seed(s)).collect();
+    let per_pointer = single_ops("").len() as u64;
+    let n_single = seeds.len() as u64 * universe.len() as u64 * per_pointer;
+    let parts = par::for_each_index(
+        n_single,
+        32,
+        |_| std::collections::BTreeMap::<String, (u64, usize, String, Value)>::new(),
+        |found, i| {
+            let si = (i / (universe.len() as u64 * per_pointer)) as usize;
+            let rest = i % (universe.len() as u64 * per_pointer);
+            let p = &universe[(rest / per_pointer) as usize];
+            let op = single_ops(p).swap_remove((rest % per_pointer) as usize);
+            let mut acc = Acc::new();
+            guarded_with(&full, &seeds[si], std::slice::from_ref(&op), 0, Some(&befores[si]), &mut acc);
+            full.ctr.flush(&acc.ctr);
+            // per violation key the case with the smallest index is kept (deterministic)
+            for (pos, b) in acc.bad.into_iter().enumerate() {
+                if found.get(&b.key).is_none_or(|(j, ..)| i < *j) {
+                    found.insert(b.key, (i, pos, format!("{} [start tree {:?}]", b.what, SEED_NAMES[si]), json!({"mode": "single", "seed": SEED_NAMES[si], "ops": [op.to_json()]})));
+                }
+            }
+        },
+    );
+    let mut first: std::collections::BTreeMap<String, (u64, usize, String, Value)> = std::collections::BTreeMap::new();
+    for (k, v) in parts.into_iter().flatten() {
+        if first.get(&k).is_none_or(|(j, ..)| v.0 < *j) {
+            first.insert(k, v);
+        }
+    }
+    // report in (case index, order of detection within the case) order
+    let mut ordered: Vec<(u64, usize, String, String, Value)> = first.into_iter().map(|(k, (i, pos, w, c))| (i, pos, k, w, c)).collect();
+    ordered.sort_by(|a, b| (a.0, a.1, &a.2).cmp(&(b.0, b.1, &b.2)));
+    for (_, _, k, w, c) in ordered {
+        ctx.violation(k, w, c);
+    }
+    for i in [7u64, 9_001, 20_011, 33_333] {
+        let i = i % n_single;
+        let si = (i / (universe.len() as u64 * per_pointer)) as usize;
+        let rest = i % (universe.len() as u64 * per_pointer);
+        let op = single_ops(&universe[(rest / per_pointer) as usize]).swap_remove((rest % per_pointer) as usize);
+        samples.offer(|| json!({"start_tree": SEED_NAMES[si], "op": op.to_json()}));
+    }
+    let single_wall = t0.elapsed().as_secs_f64();
+
+    // ---- (b) small-scope histories
+    let sys = RegSys { cfg: Cfg::new(&scope_observed(), false, true), letters: scope_letters() };
+    // same system without the router twins: used for the deepest tree level only
+    let lean = RegSys { cfg: Cfg::new(&scope_observed(), false, false), letters: scope_letters() };
+    let bfs_depth = tier.pick(6, 10);
+    let bfs_budget = Instant::now() + Duration::from_secs(tier.pick(12, 400));
+    let b = explore::bfs(&sys, bfs_depth, tier.pick(400_000, 6_000_000), Some(bfs_budget));
+    record(&ctx, &sys, &b);
+    let bfs_wall = t0.elapsed().as_secs_f64() - single_wall;
+    let tree_depth = tier.pick(3, 5);
+    let routed_tree_depth = tier.pick(3, 4);
+    let budget = Instant::now() + Duration::from_secs(tier.pick(15, 900));
+    let mut tree_hist = 0u64;
+    let mut tree_complete = true;
+    let mut tree_depth_done = 0;
+    for d in 1..=tree_depth {
+        let which = if d <= routed_tree_depth { &sys } else { &lean };
+        let t = explore::tree(&LastOnly(which), d, Some(budget));
+        record(&ctx, &sys, &t);
+        tree_hist += t.histories;
+        tree_complete &= t.complete;
+        if t.complete {
+            tree_depth_done = d;
+        }
+        if ctx.has_violation() {
+            break;
+        }
+    }
+    let tree_wall = t0.elapsed().as_secs_f64() - single_wall - bfs_wall;
+    samples.offer(|| json!({"history": sys.ops(&[21, 13, 5, 1]).iter().map(|o| o.short()).collect::<Vec<_>>()}));
+
+    // ---- non-vacuity
+    let c = |i: usize| full.ctr.get(i) + sys.cfg.ctr.get(i) + lean.cfg.ctr.get(i);
+    let mut routed = serde_json::Map::new();
+    let mut routed_min = u64::MAX;
+    for (pi, prefix) in PREFIXES.iter().enumerate() {
+        let mut per = serde_json::Map::new();
+        for (fi, name) in FMT_NAMES.iter().enumerate() {
+            let n = c(C_ROUTED + pi * 7 + fi);
+            routed_min = routed_min.min(n);
+            per.insert(name.to_string(), json!(n));
+        }
+        routed.insert(format!("prefix {prefix:?}"), Value::Object(per));
+    }
+    let needed: [(&str, u64); 14] = [
+        ("successful_writes", c(C_WRITE_OK)),
+        ("rejected_writes", c(C_WRITE_REJ)),
+        ("rejected_malformed_pointers", c(C_MALFORMED_REJ)),
+        ("callable_invocations", c(C_INVOCATIONS)),
+        ("fast_path_dispatches", c(C_FAST)),
+        ("canonicalising_path_dispatches", c(C_CANON)),
+        ("array_index_writes", c(C_ARRAY_WRITE)),
+        ("root_merges", c(C_ROOT_MERGE)),
+        ("empty_body_requests", c(C_EMPTY_BODY)),
+        ("reads_of_callable_pointers", c(C_FN_READ)),
+        ("paths_not_below_prefix", c(C_NOT_ROUTED)),
+        ("callable_probes", c(C_PROBES)),
+        ("failing_callable_invocations", c(C_CALL_FAILED)),
+        ("routed_requests_min_per_prefix_and_format", routed_min),
+    ];
+    if !ctx.has_violation() {
+        for (name, n) in needed {
+            if n == 0 {
+                ctx.machinery(format!("vacuous exploration: counter {name} is 0"));
+            }
+        }
+    }
+    if c(C_UNSPECIFIED) > 0 {
+        ctx.note(format!("{} cases left the stated behaviour (a callable was accepted at the root) and were cut there", c(C_UNSPECIFIED)));
+    }
+    if c(C_ERRCODE_DIFF) > 0 {
+        ctx.note(format!("{} routed requests failed with an error code different from the direct dispatch (codes of impossible requests are not stated)", c(C_ERRCODE_DIFF)));
+    }
+    let mut nv: serde_json::Map<String, Value> = needed.iter().map(|(k, v)| (k.to_string(), json!(v))).collect();
+    nv.insert("routed_requests".into(), Value::Object(routed));
+    nv.insert("unstated_outcome_took_ok_branch".into(), json!(c(C_EITHER_OK)));
+    nv.insert("unstated_outcome_took_err_branch".into(), json!(c(C_EITHER_ERR)));
+    nv.insert("successful_registrations".into(), json!(c(C_REG_OK)));
+    nv.insert("successful_merges".into(), json!(c(C_MERGE_OK)));
+    nv.insert("requests_at_root_spellings".into(), json!(c(C_ROOT_SPELLINGS)));
+    nv.insert("token_spellings_round_tripped".into(), json!(tokens_checked));
+    nv.insert("json_pointer_comparisons".into(), json!(jp_compared));
+    nv.insert("json_pointer_malformed_inputs_not_compared".into(), json!(jp_malformed));
+
+    let exhaustive = tree_complete && b.complete;
+    let coverage = json!({
+        "states": n_single + b.states,
+        "transitions": c(C_CALLS),
+        "traces_validated_against_impl": c(C_CASES),
+        "samples": samples.take(),
+        "exhaustive": exhaustive,
+        "rule": "(a) every operation {read, read_value, register_function, send x 5 values, register_value x 5 values, merge_at x 2 objects} x every pointer of the universe x start trees {empty, nested tree, tree with 7 callables}, each on a fresh registry built by replaying the start tree; before and after the step every pointer of the universe is read and compared with the reference model, every callable is probed once, and the request is repeated through Router::with_registry under 3 prefixes x body formats on twin registries; (b) every history of length <= tree depth over the small-scope alphabet (oracle on the last step, all shorter histories enumerated on their own) and BFS with merging on (model document, callable set, call-log length, implementation's observable reads)",
+        "bound": {"single_step_cases": n_single, "tree_depth": tree_depth, "tree_depth_completed": tree_depth_done, "tree_depth_with_router_twins": routed_tree_depth, "bfs_depth": bfs_depth, "bfs_depth_completed": b.depth, "bfs_fixpoint": b.fixpoint},
+        "alphabet": {
+            "universe_pointers": universe.len(),
+            "tokens": TOKENS, "malformed": MALFORMED, "root_forms": ["", "/"],
+            "values": values(), "start_trees": SEED_NAMES,
+            "scope_pointers": SCOPE_POINTERS, "scope_letters": sys.letters.iter().map(|o| o.short()).collect::<Vec<_>>(),
+            "scope_observed_pointers": scope_observed(),
+            "prefixes": PREFIXES, "body_formats": FMT_NAMES,
+        },
+        "tree": {"histories": tree_hist, "complete": tree_complete},
+        "bfs": {"states": b.states, "transitions": b.transitions, "histories": b.histories, "complete_within_bound": b.complete},
+        "wall_s": {"single_step": single_wall, "tree": tree_wall, "bfs": bfs_wall},
+        "nonvacuity": Value::Object(nv),
+    });
+    ctx.finish(
+        "model_checking",
+        coverage,
+        &[
+            "the registry treats both \"\" and \"/\" as the root (so the top-level key \"\" is not addressable by a request); the oracle follows the implementation there, everything else is strict RFC 6901",
+            "registration paths (register_value / register_function / merge_at) without a leading '/' are taken as if they had one; registering over a non-object ancestor or merging into a non-object root is not stated: both 'replaced by an object' and 'rejected without change' are accepted",
+            "not compared because not stated: the JSON returned by a read of a callable's own pointer and by a write acknowledgement, error message texts, which error code an impossible (well-formed) request gets, lenient array index spellings such as \"01\" or \"+1\" (none in the universe), what json_pointer::parse does with malformed escapes",
+            "a path handed to a mounted registry that is not below its prefix must be answered with an error and change nothing; which error code is not stated",
+            "a non-empty body whose format code is unknown cannot be 'the supplied body' of anything: it is expected to be refused without any effect; an empty body with an unknown format code is only required to change nothing",
+            "RFC 6901 gives every token sequence exactly one valid spelling, so 'escape-free vs escaped spelling of the same pointer' exists only for the root (\"\" vs \"/\") and for registration paths with/without the leading '/'; the borrowed fast path and the canonicalising path are each compared with the same oracle on every pointer (counters fast_path_dispatches / canonicalising_path_dispatches)",
+            "the single-step sweep takes the reads 'before the step' from another fresh registry that received the same start tree (deterministic function of the history); each case still compares its own document with the model before the step",
+            "BEVE/JSON codecs are taken as correct (C08 decides the codecs); BFS merging assumes the registry is a deterministic function of its history, the un-merged tree is run as well",
+            "concurrent requests are decided by the loom part of C14",
+        ],
+    )
+}
+
+pub fn replay(case: &Value) -> Result<(), String> {
+    if case["mode"] == "json_pointer" {
+        return replay_json_pointer(case);
+    }
+    let seed = seed_ops(case["seed"].as_str().unwrap_or("empty")).ok_or("unknown seed")?;
+    let ops: Vec<Op> = case["ops"].as_array().ok_or("ops")?.iter().map(Op::from_json).collect::<Option<Vec<_>>>().ok_or("bad op")?;
+    println!("start tree {:?}; ops: {:#?}", case["seed"], ops.iter().map(|o| o.short()).collect::<Vec<_>>());
+    let cfg = Cfg::new(&full_universe(), true, true);
+    let mut acc = Acc::new();
+    guarded(&cfg, &seed, &ops, 0, &mut acc);
+    if acc.bad.is_empty() { Ok(()) } else { Err(acc.bad.iter().map(|b| format!("{}: {}", b.key, b.what)).collect::<Vec<_>>().join("\n")) }
 }
